@@ -19,11 +19,13 @@ import (
 const pBytes = core.Module + "/pkg/util/bytes"
 
 type wireOp struct {
-	Kind  string // u8 u16 u32 u64 str8 str16 str32 str64 raw
-	Field string // leaf field name of the message
-	Guard string // e.g. ResultCode==ResultCodeFailed
-	Scale string // e.g. /1e6 or *1e6
-	Trunc string // truncation bound constant (encoders)
+	Kind  string         // u8 u16 u32 u64 str8 str16 str32 str64 raw
+	Field string         // leaf field name of the message
+	Guard string         // e.g. ResultCode==ResultCodeFailed
+	Scale string         // e.g. /1e6 or *1e6
+	Trunc string         // truncation bound constant (encoders)
+	Arg   ast.Expr       // the written value expression (encoders)
+	Fn    *core.FuncInfo // function containing the operation
 	Pos   token.Pos
 }
 
@@ -303,7 +305,7 @@ func (x *layoutX) expr(e ast.Expr, guard string, lhs ast.Expr) {
 			} else if len(c.Args) == 1 {
 				val = c.Args[0]
 			}
-			op := wireOp{Kind: k, Guard: guard, Pos: c.Pos()}
+			op := wireOp{Kind: k, Guard: guard, Pos: c.Pos(), Arg: val, Fn: x.fn}
 			fields, scale, trunc := x.valueInfo(val, 4)
 			op.Scale, op.Trunc = scale, trunc
 			if len(fields) == 1 {
